@@ -329,7 +329,13 @@ fn regname(r: &str, style: u64) -> &'static str {
 }
 
 fn num(v: i64, style: u64) -> String {
-    if v >= 0 && style % 4 == 3 {
+    if v >= 0 && style % 16 == 9 {
+        format!("{}.0", v)                      // NR2 / NR3 spellings of the same integer
+    } else if v >= 0 && style % 16 == 13 {
+        format!("{}E0", v)
+    } else if v > 0 && v % 10 == 0 && style % 16 == 1 {
+        format!("{}E1", v / 10)
+    } else if v >= 0 && style % 4 == 3 {
         format!("#H{:X}", v)
     } else if v >= 0 && style % 8 == 5 {
         format!("#B{:b}", v)
@@ -719,7 +725,7 @@ pub fn record_trace(args: &[String]) -> i32 {
     let codes: [i64; 20] = [-100, -113, -200, -222, -300, -350, -400, -410, -500, -600, -700, -800, 1, 7, 32767, -32768, -190, -227, -450, -50];
     let mk = |op: &str, r: &str, v: i64, k: &str, c: i64, x: i64| json!({"op": op, "r": r, "v": v, "k": k, "code": c, "ext": x});
     for (ci, &cap) in caps.iter().enumerate() {
-        let tst: i16 = if ci % 2 == 0 { 0 } else { -330 };
+        let tst: i16 = if ci % 2 == 0 { 0 } else if ci == 3 { i16::MIN } else { -330 };
         let mut d = Dev::new(cap, tst);
         out.put(&json!({"ev": "reset", "cap": cap, "tst": tst}));
         for it in 0..n {
